@@ -216,3 +216,60 @@ def check_oneshot(ck: Checker, rule: str, fns) -> int:
                 ck.require(not twice, rule, fn, d, f"one-shot iterator `{tg.id}` is consumed once",
                            f"`{tg.id}` is a one-shot iterator ({norm(v)[:50]}) but is consumed more than once along a path", construct=f"{tg.id} = {norm(v)[:40]} / consumed twice")
     return n_checked
+
+
+def check_claimed_attempted(ck: Checker, m: "TransferModel", rule: str) -> int:
+    """Files taken out of the shared pool by a directory (`pool -= entry_ids`) are handed to the adding helper on
+    every way to the next directory: once claimed, nobody else will send them, so skipping the upload (e.g. an
+    early `continue` for a directory that also lists a missing file) leaves present files unsent *and* unreported."""
+    g, move = m.g, m.move
+    fids = {x.id for x, _c in m.files_add}
+    n = 0
+    for x in g.nodes.values():
+        if m.head.id not in x.loops or x.kind != "stmt":
+            continue
+        a = x.ast
+        pool = None
+        if isinstance(a, ast.AugAssign) and isinstance(a.op, ast.Sub) and isinstance(a.target, ast.Name):
+            pool = a.target.id
+        elif isinstance(a, ast.Expr) and isinstance(a.value, ast.Call) and is_method_call(a.value, "difference_update") and isinstance(a.value.func.value, ast.Name):
+            pool = a.value.func.value.id
+        elif isinstance(a, ast.Assign) and len(a.targets) == 1 and isinstance(a.targets[0], ast.Name) and isinstance(a.value, ast.BinOp) and isinstance(a.value.op, ast.Sub) and norm(a.value.left) == a.targets[0].id:
+            pool = a.targets[0].id
+        if pool is None:
+            continue
+        # only the pool the loose-file add is fed from afterwards
+        if not any(pool in {nm.id for nm in ast.walk(c) if isinstance(nm, ast.Name)} for _x, c in m.trailing_add):
+            continue
+        n += 1
+        r = g.reach([d for lab, d in x.succ if lab != "exc"], skip_node=lambda y: y.id in fids, skip_edge=lambda p, lab, q: lab == "exc", include_start=True)
+        bad = m.head.id in r and not any(d in fids for lab, d in x.succ)
+        ck.require(not bad, rule, move, x, "files a directory claimed from the shared pool are always handed to the adding helper",
+                   f"after `{x.text()[:40]}` the directory's own files can be skipped without being sent (e.g. `continue` before the upload when the directory also lists a missing file): they left the pool, so they are neither transferred nor reported as failed, and `new - failed` reports them as transferred",
+                   witness=g.fmt_path(g.path_to(r, m.head.id)) if bad else None, construct=f"{x.text()[:40]} / claimed files attempted")
+    return n
+
+
+def check_missing_readonly(ck: Checker, m: "TransferModel", rule: str) -> None:
+    """The set of ids missing on both sides is only read inside the per-directory loop: a directory that shares a
+    missing file with an earlier one must still see it."""
+    g, move = m.g, m.move
+    mp = "missing_ids" if move.has_param("missing_ids") else None
+    if mp is None:
+        return
+    MUT = ("difference_update", "discard", "remove", "pop", "clear", "intersection_update", "symmetric_difference_update")
+    for x in g.nodes.values():
+        if m.head.id not in x.loops:
+            continue
+        a = x.ast
+        hit = False
+        if x.kind == "stmt" and isinstance(a, ast.AugAssign) and isinstance(a.target, ast.Name) and a.target.id == mp and isinstance(a.op, (ast.Sub, ast.BitAnd, ast.BitXor)):
+            hit = True
+        for c in calls_at(x):
+            if is_method_call(c, *MUT) and norm(c.func.value) == mp:
+                hit = True
+        if x.kind == "stmt" and isinstance(a, ast.Assign) and any(isinstance(t, ast.Name) and t.id == mp for t in a.targets):
+            hit = True
+        if hit:
+            ck.fail(rule, move, x, f"`{x.text()[:50]}` shrinks / rebinds the set of ids missing on both sides inside the per-directory loop: a later directory that lists the same missing file no longer sees it, uploads its .dir object and is reported as transferred", construct=f"{x.text()[:40]} / missing set read-only")
+    ck.ok(rule, move, move.node, "the missing-on-both-sides set is not modified inside the per-directory loop", construct="missing_ids / read-only in loop")
